@@ -1,8 +1,8 @@
 """C08 — no peer behaviour keeps pynetdicom blocked past its configured timeouts.
 
 Fault enumeration: role x protocol phase x cut offset x stall style.  The scripted peer keeps the TCP connection open
-but stops (silent / partial PDU then silent / dribbling one byte at a time) at the chosen point; all four pynetdicom
-timeouts are 0.5 s.  Oracle (bounded progress): within 10 x the sum of the relevant timeouts every user call has
+but stops (silent / partial PDU then silent / dribbling one byte at a time) at the chosen point - or, the opposite, ignores an
+A-ABORT it provoked or was sent and keeps streaming complete PDUs; all four pynetdicom timeouts are 0.5 s.  Oracle (bounded progress): within 10 x the sum of the relevant timeouts every user call has
 returned and no association / provider thread of the local side is alive and its raw socket is closed.  A watchdog
 firing is a violation only if two stack snapshots 1 s apart show the same thread parked at the same blocking call.
 """
@@ -21,7 +21,7 @@ RULE = ("(role, phase, cut class, stall style) enumerated; phases: before RQ/AC,
 ASSUMPTIONS = ["all four timeouts 0.5 s; watchdog 6 s after the stall began (>= 10 x the relevant timeout plus margin)",
                "the peer never closes the TCP connection during the observation window"]
 WORKERS = {"quick": 16, "thorough": 16}
-REQUIRE = {"scenarios": 40, "acceptor_scenarios": 20, "requestor_scenarios": 15, "stall_points_reached": 40}
+REQUIRE = {"scenarios": 40, "acceptor_scenarios": 20, "requestor_scenarios": 15, "stall_points_reached": 40, "stream_scenarios": 10}
 VER = "1.2.840.10008.1.1"
 CT = "1.2.840.10008.5.1.4.1.1.2"
 T = 0.5
@@ -35,6 +35,9 @@ def setup_worker():
 
 ACC_PHASES = ["before-rq", "inside-rq", "idle", "mid-command", "between-command-and-dataset", "mid-dataset-pdu-boundary",
               "mid-dataset-inside-pdu", "inside-release-rq", "inside-abort", "second-message-mid-command"]
+# the peer never goes quiet: after provoking (or being sent) an A-ABORT it ignores it and keeps streaming complete PDUs
+ACC_STREAM_PHASES = ["stream-after-request-on-unaccepted-context", "stream-after-unrecognised-pdu", "stream-after-undecodable-pdu", "stream-after-release-rq",
+                     "stream-while-application-aborts"]
 REQ_PHASES = ["before-ac", "inside-ac", "echo-no-response", "echo-response-inside-pdu", "find-pending-then-silence",
               "find-response-mid-dataset", "release-no-rp", "release-rp-inside-pdu", "store-no-response"]
 
@@ -51,6 +54,11 @@ def gen_cases(tier, seed):
                 if style == "dribble" and c == "-":
                     continue
                 cases.append({"role": "acceptor", "phase": ph, "cut": c, "style": style})
+    for ph in ACC_STREAM_PHASES:
+        # "stream": back-to-back PDUs (in Sta13 pynetdicom closes at once when nothing is pending, so only a peer that never pauses
+        # makes the ARTIM expiry the thing that ends it); "stream-paced": one PDU every 2 ms
+        cases.append({"role": "acceptor", "phase": ph, "cut": "-", "style": "stream"})
+        cases.append({"role": "acceptor", "phase": ph, "cut": "-", "style": "stream-paced"})
     for ph in REQ_PHASES:
         for style in ("silent", "dribble"):
             cuts = ["1", "5", "6", "7", "len-1", "mid"] if "inside" in ph or "mid-dataset" in ph else ["-"]
@@ -99,8 +107,33 @@ class Staller:
             self.thread = threading.Thread(target=run, daemon=True)
             self.thread.start()
 
+    def stream(self, pdu_bytes):
+        """Keeps sending complete PDUs (never reads, never closes) until end() or the connection breaks."""
+        self.sent = 0
+        period = 0.002 if self.style == "stream-paced" else 0
+        self.p.sock.settimeout(None)      # a full TCP window blocks the sender, it never cuts a PDU short
+
+        batch = pdu_bytes if period else pdu_bytes * 2000      # unpaced: the receive buffer is never empty
+
+        def run():
+            while not self.stop:
+                try:
+                    self.p.sock.sendall(batch)
+                    self.sent += 1
+                except OSError:
+                    return
+                if period:
+                    time.sleep(period)
+        self.thread = threading.Thread(target=run, daemon=True)
+        self.thread.start()
+
     def end(self):
         self.stop = True
+        if self.style.startswith("stream"):
+            try:
+                self.p.sock.shutdown(2)     # unblocks a sendall() that waits for window space
+            except OSError:
+                pass
 
 
 def dataset_bytes(n=3000):
@@ -137,6 +170,11 @@ def liveness_verdict(viol, role, tag, t_stall, user_thread=None):
             w = next(x for x in parked if x[2])
             where = w[3][-1].split(":")[1] if w[3] else "?"
             cls = "pdu-boundary" if "|cut--|" in tag else "inside-pdu"
+            provider_in_recv = any(x[2] and x[3] and x[3][-1].split(":")[1] == "recv" and "transport.py" in " ".join(x[3]) for x in parked)
+            if tag.startswith("stream-after-unrecognised-pdu|") and provider_in_recv:
+                # the body of the unrecognised PDU is not consumed, so the provider reads the following bytes as a PDU header
+                # with an arbitrary length and sits in the same deadline-less body read as the inside-pdu stalls
+                cls = "desync-after-unrecognised-pdu"
             viol.append({"key": "blocked-past-timeouts|%s|%s|%s|%s" % (cls, role, tag, where),
                          "detail": "%.1f s after the peer stalled (timeouts %.1f s): %r" % (waited, T, parked)})
         else:
@@ -205,6 +243,27 @@ def run_acceptor(case, counters):
                 b = ps38.encode({"type": "RELRQ"}); st.stall(b, cut_offset(case["cut"], len(b), rng)); reached = True
             elif ph == "inside-abort":
                 b = ps38.encode({"type": "ABORT", "source": 0, "reason": 0}); st.stall(b, cut_offset(case["cut"], len(b), rng)); reached = True
+            elif ph in ACC_STREAM_PHASES:
+                echo = b"".join(ps38.encode(v) for v in p.dimse_pdus(1, cmdset.c_echo_rq(9)))
+                if ph == "stream-after-request-on-unaccepted-context":
+                    p.send_raw(b"".join(ps38.encode(v) for v in p.dimse_pdus(7, cmdset.c_echo_rq(1))))
+                elif ph == "stream-after-unrecognised-pdu":
+                    p.send_raw(b"\x09\x00\x00\x00\x00\x02\x00\x00")
+                elif ph == "stream-after-undecodable-pdu":
+                    # recognised type, body fully framed but not decodable (A-ASSOCIATE-RJ cut to 2 body bytes): Evt19 with the stream still aligned
+                    p.send_raw(b"\x03\x00\x00\x00\x00\x02\x00\x01")
+                elif ph == "stream-after-release-rq":
+                    p.send_raw(ps38.encode({"type": "RELRQ"}))
+                else:
+                    harness.wait_for(lambda: bool(harness.acceptor_assocs()), 2.0)
+                    acc = harness.acceptor_assocs()[0]
+                    st.stream(echo)
+                    time.sleep(0.05)
+                    threading.Thread(target=lambda: acc.abort(), daemon=True).start()
+                if st.thread is None:
+                    st.stream(echo)
+                reached = True
+                counters["stream_scenarios"] = counters.get("stream_scenarios", 0) + 1
             elif ph == "second-message-mid-command":
                 p.send_dimse(1, cmdset.c_echo_rq(1)); p.recv_dimse(3.0)
                 b = ps38.encode(p.dimse_pdus(1, cmdset.c_echo_rq(2))[0]); st.stall(b, cut_offset(case["cut"], len(b), rng)); reached = True
